@@ -79,6 +79,22 @@ CHECKS["C15"] = dict(level="exploration", engine="sweep",
    note="The walker is bound to libzstd on every run of C01/C09 (it must accept every libzstd frame with libzstd's plaintext).",
    design="3/C15")
 
+CHECKS["C07"] = dict(level="model_checking", engine="xplore",
+   technique="exhaustive enumeration of decoder histories (episodes) as states and field-directed probes as transitions, differential oracle against a fresh decoder",
+   text="States = decoders after every history of <= 2 episodes (all 80x80 pairs; thorough adds 3-episode histories over the heavy progress points) with 0/1/2 dictionaries registered. An episode = one of 16 setter frames x 5 progress points (header only, one block, all blocks undrained, drained, whole multi-frame call). Each setter frame puts one kind of state into the decoder: Huffman tables of both description kinds, FSE and RLE tables per LL/OF/ML, offset history, a 64 KiB window of 0xAA, dictionary tables and content (two dictionaries), checksum, block counter, single segment; six more fail or are rejected at a chosen point (truncated, corrupt block, window above limit, unregistered dictionary, bad magic, empty). Transitions = 28 probes x 3 front ends out of every state; probes include frames that are INVALID on a fresh decoder and become decodable only if that state leaked (treeless first block for each table kind, Repeat mode per table for leaked RLE and FSE tables, matches reaching 1/3/40/1000 bytes before the frame) and valid frames whose content depends on the initial offset history. Oracle: the probe's complete outcome (result, error text, bytes, both checksums, consumed count, content size) equals the outcome on a brand-new decoder with the same dictionaries.",
+   note="Differential oracle, no hand-written expectations except that state-dependent invalid probes must fail on a fresh decoder. The state after a failed reset is not compared, only the next frame's outcome.",
+   design="3/C07")
+CHECKS["C16"] = dict(level="exploration", engine="sweep",
+   technique="complete enumeration of valid parses of small inputs through a scripted Matcher on the public trait, restricted-move enumeration on emit-able blocks, threshold-directed parses",
+   text="A scripted Matcher replays a given parse through the public Matcher trait and FrameCompressor::new_with_matcher. (a) every input over {a,b} of length 3..=12/14 cut into blocks of 4 and 11 with EVERY valid parse of every block (all tilings by literal runs and matches of length >= 3 at every offset whose source equals the target: zero-length literal runs, overlapping matches, matches into earlier blocks); (b) 64-byte periodic inputs in blocks of 32 with every parse of <= 3/4 sequences over ll {0,1,2,5} x ml {3,4,7,16,rest} x offset {period, 2*period, max, 1} - these are emitted in compressed form (counted); (c) directed: sequence counts 1,2,126..129,255,256,0x7EFF..0x7F01,0x7FFF..0x8001,43689 per block, single-sequence blocks, all literal lengths 0, every LL/ML code boundary up to a whole block, offsets 1 / exactly the window / exactly n blocks back for windows 1 KiB, 128 KiB, 8 MiB, Huffman-rawfallback-Huffman block triples, literal counts 1023..1026, > 1024 literals of one byte value. Oracle: no panic, this crate's decoder and libzstd return the input, the strict walker accepts, declared window >= reported window.",
+   note="Every parse fed is checked by the harness to be well-behaved (tiles the block, ml >= 3, offset within window and history, source == target). C15's size formula is not applied (a user matcher may choose small spaces).",
+   design="3/C16")
+CHECKS["C17"] = dict(level="model_checking", engine="xplore",
+   technique="exhaustive enumeration of all operation sequences up to a depth on the real MatchGeneratorDriver with a scaled-down window (hook constructor), colliding 2-letter alphabet, concatenated-window reference model",
+   text="Every sequence of operations up to the stated depth on the real driver built with slice sizes 8 and 12 and windows of 1-3 slices: each operation commits one block over a 2-letter alphabet (ALL blocks of the stated lengths) and either runs the matcher or skips it; one reset may occur at any point and reuse after reset recycles data buffers and suffix stores. The two letters are derived at run time through the key-function hook so that two distinct 5-byte keys share a suffix-store slot (the run refuses to proceed vacuously otherwise). After every matched block: runs and matches concatenate to the block; every match equals its source byte for byte at the stated distance in the concatenation of the retained window entries; offset <= advertised window and <= retained bytes; the window ends with the block and never exceeds the advertised size; a recycled driver answers exactly like a new one. Quick: 23 M sequences (depth 2 with all block lengths 1..=8, depth 3 with length 6, slice 12 depth 2); thorough adds depth 3/4 and slice 12 with full-length blocks.",
+   note="The production configuration (128 KiB slice, 1 slice) differs only in constants and is exercised end to end by C02; the scaled-down window is what makes eviction, cross-slice offsets and recycling reachable exhaustively.",
+   design="3/C17")
+
 NOT_YET = {}
 
 def main():
